@@ -83,6 +83,7 @@ fn main() {
         "check" => {
             let id = args[2].as_str();
             install_exit_guard(id);
+            start_watchdog(120);
             let tier = match args.get(3).map(|s| s.as_str()) {
                 Some("thorough") => Tier::Thorough,
                 Some("quick") | None => Tier::Quick,
